@@ -251,6 +251,12 @@ func k1ChainMethod(p *Prog, fn *ssa.Function, m string, chainKey string) string 
 			return why
 		}
 	}
+	if len(calls) == 0 {
+		// the members are visited through a helper of a list type that calls a function once per member
+		if why, handled := k1Visitor(p, fn, m, chainKey); handled {
+			return why
+		}
+	}
 	if len(calls) != 1 {
 		return fmt.Sprintf("expected exactly one call on a chain member, found %d", len(calls))
 	}
@@ -365,6 +371,44 @@ func k1ChainMethod(p *Prog, fn *ssa.Function, m string, chainKey string) string 
 
 func k2Flatten(p *Prog, fn *ssa.Function) string {
 	loops := findRangeLoops(fn)
+	if len(loops) == 0 {
+		// the filtering loop moved into a helper that is handed the argument: the helper is checked like the loop, the
+		// function for returning the helper's result as the multiError
+		var via *ssa.Call
+		n := 0
+		instrsOf(fn, func(in ssa.Instruction) {
+			if c, ok := in.(*ssa.Call); ok {
+				if sc := c.Call.StaticCallee(); sc != nil && p.InUniverse(sc) && sc.Blocks != nil && len(c.Call.Args) == 1 && p.origin(c.Call.Args[0]) == ssa.Value(fn.Params[0]) && len(findRangeLoops(sc)) == 1 {
+					via = c
+					n++
+				}
+			}
+		})
+		if n == 1 {
+			if why := k2FlattenLoop(p, via.Call.StaticCallee(), false); why != "" {
+				return why + " (in " + funcKey(via.Call.StaticCallee()) + ")"
+			}
+			found := false
+			for _, b := range fn.Blocks {
+				if ret, ok := b.Instrs[len(b.Instrs)-1].(*ssa.Return); ok {
+					if mi, ok := ret.Results[0].(*ssa.MakeInterface); ok && p.backwardReaches(mi.X, func(v ssa.Value) bool { return v == ssa.Value(via) }) {
+						found = true
+					}
+				}
+			}
+			if !found {
+				return "the filtered errors are not what is returned"
+			}
+			return ""
+		}
+	}
+	return k2FlattenLoop(p, fn, true)
+}
+
+// k2FlattenLoop: fn ranges exhaustively over its first parameter, skips only nil elements and appends the others;
+// asIface: the accumulated slice is returned as the multiError (otherwise as the slice itself).
+func k2FlattenLoop(p *Prog, fn *ssa.Function, asIface bool) string {
+	loops := findRangeLoops(fn)
 	if len(loops) != 1 {
 		return fmt.Sprintf("expected one range loop, found %d", len(loops))
 	}
@@ -406,10 +450,13 @@ func k2Flatten(p *Prog, fn *ssa.Function) string {
 	found := false
 	for _, b := range fn.Blocks {
 		if ret, ok := b.Instrs[len(b.Instrs)-1].(*ssa.Return); ok {
-			if mi, ok := ret.Results[0].(*ssa.MakeInterface); ok {
+			if mi, ok := ret.Results[0].(*ssa.MakeInterface); ok && asIface {
 				if _, isPhi := p.origin(mi.X).(*ssa.Phi); isPhi {
 					found = true
 				}
+			}
+			if _, isPhi := p.origin(ret.Results[0]).(*ssa.Phi); isPhi && !asIface {
+				found = true
 			}
 		}
 	}
@@ -816,6 +863,280 @@ func k2BuildDelegated(p *Prog, fn *ssa.Function, regKey string) (string, bool) {
 	}
 	if !okChain {
 		return "the chain is not built from all constructed interceptors", true
+	}
+	return "", true
+}
+
+// eachLike: h ranges exhaustively over a slice held by its receiver and calls one of its function parameters exactly
+// once per element, with the element, unconditionally, and does nothing else with the members. Returns the index of
+// that parameter and the slice's type.
+func eachLike(p *Prog, h *ssa.Function) (int, types.Type, bool) {
+	if h == nil || h.Blocks == nil || h.Signature.Recv() == nil || len(h.Params) < 2 {
+		return 0, nil, false
+	}
+	loops := findRangeLoops(h)
+	if len(loops) != 1 {
+		return 0, nil, false
+	}
+	l := loops[0]
+	// the slice is a field of the receiver (by value or by pointer)
+	fromRecv := false
+	switch x := p.origin(l.Slice).(type) {
+	case *ssa.Field:
+		fromRecv = p.origin(x.X) == ssa.Value(h.Params[0])
+	case *ssa.UnOp:
+		if fa, ok := x.X.(*ssa.FieldAddr); ok && x.Op == token.MUL {
+			r := p.origin(addrRoot(fa))
+			if r == ssa.Value(h.Params[0]) {
+				fromRecv = true
+			}
+			if al, ok := r.(*ssa.Alloc); ok { // spilled value receiver
+				for _, st := range p.storesInto(al) {
+					if st.Addr == ssa.Value(al) && p.origin(st.Val) == ssa.Value(h.Params[0]) {
+						fromRecv = true
+					}
+				}
+			}
+		}
+	}
+	if !fromRecv || len(l.Exits) > 0 {
+		return 0, nil, false
+	}
+	idx := -1
+	n := 0
+	bad := false
+	for b := range l.Blocks {
+		if b != l.Header && len(b.Succs) != 1 {
+			bad = true
+		}
+		for _, in := range b.Instrs {
+			c, ok := in.(*ssa.Call)
+			if !ok || builtinName(&c.Call) != "" {
+				continue
+			}
+			par, isPar := p.origin(c.Call.Value).(*ssa.Parameter)
+			if !isPar || c.Call.IsInvoke() || len(c.Call.Args) < 1 || !l.isElem(p, c.Call.Args[0]) {
+				bad = true
+				continue
+			}
+			n++
+			for i, q := range h.Params {
+				if q == par {
+					idx = i
+				}
+			}
+		}
+	}
+	if bad || n != 1 || idx < 1 {
+		return 0, nil, false
+	}
+	return idx, l.Slice.Type(), true
+}
+
+// k1Visitor: the chain method hands a function literal to an each-like helper of the list that holds the members
+// (`c.members.each(func(m Interceptor) { m.UnbindLocalStream(ctx) })`), or — for Close — a method expression to a
+// collecting helper built on it. The literal is the loop body: exactly one call of the same-named method on its
+// member parameter, on every path; Bind folds its result through a variable of the method; Close keeps every result.
+func k1Visitor(p *Prog, fn *ssa.Function, m string, chainKey string) (string, bool) {
+	var via *ssa.Call
+	n := 0
+	instrsOf(fn, func(in ssa.Instruction) {
+		c, ok := in.(*ssa.Call)
+		if !ok {
+			return
+		}
+		sc := c.Call.StaticCallee()
+		if sc == nil || !p.InUniverse(sc) || sc.Signature.Recv() == nil || len(c.Call.Args) < 2 {
+			return
+		}
+		// the receiver is (a field of) the chain
+		if r := p.origin(addrRoot(c.Call.Args[0])); r != ssa.Value(fn.Params[0]) {
+			if u, ok := p.origin(c.Call.Args[0]).(*ssa.UnOp); !ok || p.origin(addrRoot(u.X)) != ssa.Value(fn.Params[0]) {
+				return
+			}
+		}
+		via = c
+		n++
+	})
+	if n != 1 {
+		return "", false
+	}
+	h := via.Call.StaticCallee()
+	iface := p.rootNamed("Interceptor")
+	memberCallIn := func(lit *ssa.Function) (*ssa.Call, string) {
+		var calls []*ssa.Call
+		instrsOf(lit, func(in ssa.Instruction) {
+			if c, ok := in.(*ssa.Call); ok && c.Call.IsInvoke() && types.Identical(c.Call.Value.Type(), iface) {
+				calls = append(calls, c)
+			}
+		})
+		if len(calls) != 1 {
+			return nil, fmt.Sprintf("expected exactly one call on a chain member per visit, found %d", len(calls))
+		}
+		c := calls[0]
+		if !onEveryPath(lit, c) {
+			return nil, "the member call is conditional inside the visit"
+		}
+		if c.Call.Method.Name() != m {
+			return nil, fmt.Sprintf("members receive %s instead of %s", c.Call.Method.Name(), m)
+		}
+		return c, ""
+	}
+	if m == "Close" {
+		// collect(op): each(func(member) { results = append(results, op(member)) }); return results
+		var inner *ssa.Call
+		k := 0
+		instrsOf(h, func(in ssa.Instruction) {
+			if c, ok := in.(*ssa.Call); ok {
+				if sc := c.Call.StaticCallee(); sc != nil && p.InUniverse(sc) {
+					if _, _, ok := eachLike(p, sc); ok {
+						inner = c
+						k++
+					}
+				}
+			}
+		})
+		if k != 1 {
+			return "", false
+		}
+		pi, _, _ := eachLike(p, inner.Call.StaticCallee())
+		if pi >= len(inner.Call.Args) {
+			return "", false
+		}
+		mc, ok := p.origin(inner.Call.Args[pi]).(*ssa.MakeClosure)
+		if !ok {
+			return "", false
+		}
+		lit := mc.Fn.(*ssa.Function)
+		// the literal appends op(member) unconditionally
+		var opCall *ssa.Call
+		instrsOf(lit, func(in ssa.Instruction) {
+			if c, ok := in.(*ssa.Call); ok && builtinName(&c.Call) == "" && !c.Call.IsInvoke() && c.Call.StaticCallee() == nil {
+				opCall = c
+			}
+		})
+		if opCall == nil || !onEveryPath(lit, opCall) {
+			return "a member's Close result is not collected on every visit", true
+		}
+		appended := false
+		instrsOf(lit, func(in ssa.Instruction) {
+			if c, ok := in.(*ssa.Call); ok && builtinName(&c.Call) == "append" && onEveryPath(lit, c) && p.backwardReaches(c.Call.Args[1], func(v ssa.Value) bool { return v == ssa.Value(opCall) }) {
+				appended = true
+			}
+		})
+		if !appended {
+			return "a member's Close error is not appended unconditionally", true
+		}
+		// what fn passes as op calls Close on the member
+		var opArg ssa.Value
+		for i := 1; i < len(via.Call.Args); i++ {
+			if _, isSig := via.Call.Args[i].Type().Underlying().(*types.Signature); isSig {
+				opArg = via.Call.Args[i]
+			}
+		}
+		var opFn *ssa.Function
+		switch x := p.origin(opArg).(type) {
+		case *ssa.Function:
+			opFn = x
+		case *ssa.MakeClosure:
+			opFn = x.Fn.(*ssa.Function)
+		}
+		if opFn == nil {
+			return "", false
+		}
+		closes := 0
+		instrsOf(opFn, func(in ssa.Instruction) {
+			if c, ok := in.(ssa.CallInstruction); ok && c.Common().IsInvoke() && c.Common().Method.Name() == "Close" {
+				closes++
+			}
+		})
+		if closes != 1 {
+			return "the function applied to each member does not call its Close exactly once", true
+		}
+		for _, b := range fn.Blocks {
+			ret, ok := b.Instrs[len(b.Instrs)-1].(*ssa.Return)
+			if !ok {
+				continue
+			}
+			fc, ok := ret.Results[0].(*ssa.Call)
+			if !ok || fc.Call.StaticCallee() == nil || !strings.HasSuffix(funcKey(fc.Call.StaticCallee()), "lattenErrs") && !strings.Contains(funcKey(fc.Call.StaticCallee()), "K2Flatten") {
+				return "Close does not return flattenErrs(errs)", true
+			}
+			if !p.backwardReaches(fc.Call.Args[0], func(v ssa.Value) bool { return v == ssa.Value(via) }) {
+				return "the members' Close errors do not reach flattenErrs", true
+			}
+		}
+		return "", true
+	}
+	pi, _, ok := eachLike(p, h)
+	if !ok || pi >= len(via.Call.Args) {
+		return "", false
+	}
+	if !onEveryPath(fn, via) {
+		return "the helper that visits the members is called conditionally", true
+	}
+	mc, ok := p.origin(via.Call.Args[pi]).(*ssa.MakeClosure)
+	if !ok {
+		return "", false
+	}
+	lit := mc.Fn.(*ssa.Function)
+	call, why := memberCallIn(lit)
+	if why != "" {
+		return why, true
+	}
+	if len(lit.Params) == 0 || p.origin(call.Call.Value) != ssa.Value(lit.Params[0]) {
+		return "the call's receiver is not the visited member", true
+	}
+	switch {
+	case strings.HasPrefix(m, "Unbind"):
+		if p.origin(call.Call.Args[0]) != ssa.Value(fn.Params[1]) {
+			return "members receive a different StreamInfo", true
+		}
+	case strings.HasPrefix(m, "Bind"):
+		args := call.Call.Args
+		// the running result lives in a variable of the method that the literal captures: read, handed to the member,
+		// overwritten with the member's result
+		ld, ok := args[len(args)-1].(*ssa.UnOp)
+		if !ok || ld.Op != token.MUL {
+			return "the value handed to each member is not the running result", true
+		}
+		cell := cellAddr(ld.X)
+		al, ok := cell.(*ssa.Alloc)
+		if !ok || al.Parent() != fn {
+			return "the value handed to each member is not the running result", true
+		}
+		stored := false
+		instrsOf(lit, func(in ssa.Instruction) {
+			if st, ok := in.(*ssa.Store); ok && cellAddr(st.Addr) == cell && st.Val == ssa.Value(call) {
+				stored = true
+			}
+		})
+		if !stored {
+			return "the running result is not folded from the argument through each member's result", true
+		}
+		par := fn.Params[len(fn.Params)-1]
+		initOK := false
+		for _, st := range p.storesToCell(al) {
+			if st.Parent() == fn && p.origin(st.Val) == ssa.Value(par) {
+				initOK = true
+			}
+		}
+		if !initOK {
+			return "the running result does not start as the method's argument", true
+		}
+		for i := 0; i < len(args)-1; i++ {
+			if p.origin(args[i]) != ssa.Value(fn.Params[i+1]) {
+				return "members receive a different StreamInfo", true
+			}
+		}
+		for _, b := range fn.Blocks {
+			if ret, ok := b.Instrs[len(b.Instrs)-1].(*ssa.Return); ok {
+				u, ok := ret.Results[0].(*ssa.UnOp)
+				if !ok || cellAddr(u.X) != cell {
+					return "the returned value is not the folded result at " + p.instrPos(ret), true
+				}
+			}
+		}
 	}
 	return "", true
 }
